@@ -17,6 +17,8 @@ structure Params (cfg : Cfg) : Prop where
   zerosBad : ∀ k, cfg.metaOK (zeros k) = false
   /-- a serialized metainfo decodes -/
   miGood : ∀ b, cfg.metaOK (cfg.genMI b) = true
+  /-- `SkipHashVerification` is off -/
+  verify : cfg.verify = true
 
 /-- the file map only knows blobs whose file is in the cache -/
 def Sync (m : Mem) (fs : FS Name) : Prop := ∀ n, isCached m n = true → (fs.file? (cacheDir n) .data).isSome = true
@@ -187,11 +189,10 @@ the tree when it completes -/
 structure OpOK (cfg : Cfg) (m : Mem) (fs : FS Name) (out : Out) : Prop where
   pre : GoodFS cfg fs → ∀ k, GoodFS cfg (applyPrefix k out.calls fs)
   sync : Sync m fs → Sync out.mem (applyAll fs out.calls)
-  keeps : Keeps fs (applyAll fs out.calls)
 
 theorem opOK_neutral {cfg : Cfg} {m : Mem} {fs : FS Name} {out : Out} (hn : ∀ c ∈ out.calls, Neutral c)
     (hm : ∀ n, isCached out.mem n = true → isCached m n = true) : OpOK cfg m fs out :=
-  ⟨fun g => neutral_prefix g _ hn, fun hs n h => keeps_of_neutral _ hn fs n (hs n (hm n h)), keeps_of_neutral _ hn fs⟩
+  ⟨fun g => neutral_prefix g _ hn, fun hs n h => keeps_of_neutral _ hn fs n (hs n (hm n h))⟩
 
 theorem udelete_calls (o : Order Name) (m : Mem) (fs : FS Name) (u : String) :
     (∀ c ∈ (udelete o m fs u).2, Neutral c) ∧ (udelete o m fs u).1.cached = m.cached := by
@@ -225,18 +226,16 @@ theorem uwrite_ok (cfg : Cfg) (m : Mem) (fs : FS Name) (u : String) (off : Nat) 
 /-- `fin`: the deferred removal of the upload file after the commit's own calls -/
 theorem fin_ok {cfg : Cfg} (o : Order Name) (m m1 : Mem) (fs : FS Name) (cs : List (Call Name)) (u : String) (r : Res)
     (hpre : GoodFS cfg fs → ∀ k, GoodFS cfg (applyPrefix k cs fs))
-    (hsync : Sync m fs → Sync m1 (applyAll fs cs)) (hk : Keeps fs (applyAll fs cs)) :
+    (hsync : Sync m fs → Sync m1 (applyAll fs cs)) :
     OpOK cfg m fs ⟨(udelete o m1 (applyAll fs cs) u).1, cs ++ (udelete o m1 (applyAll fs cs) u).2, r⟩ := by
   obtain ⟨hn, hc⟩ := udelete_calls o m1 (applyAll fs cs) u
-  refine ⟨fun g => prefix_append _ _ _ _ (hpre g) (neutral_prefix (all_of_prefix _ _ _ (hpre g)) _ hn), ?_, ?_⟩
-  · intro hs n h
-    simp only [applyAll_append]
-    have h' : isCached m1 n = true := by simpa [isCached, hc] using h
-    exact keeps_of_neutral _ hn _ n (hsync hs n h')
-  · simp only [applyAll_append]
-    exact hk.trans (keeps_of_neutral _ hn _)
+  refine ⟨fun g => prefix_append _ _ _ _ (hpre g) (neutral_prefix (all_of_prefix _ _ _ (hpre g)) _ hn), ?_⟩
+  intro hs n h
+  simp only [applyAll_append]
+  have h' : isCached m1 n = true := by simpa [isCached, hc] using h
+  exact keeps_of_neutral _ hn _ n (hsync hs n h')
 
-theorem commit_ok (cfg : Cfg) (o : Order Name) (m : Mem) (fs : FS Name) (u n : String) :
+theorem commit_ok (cfg : Cfg) (hv : cfg.verify = true) (o : Order Name) (m : Mem) (fs : FS Name) (u n : String) :
     OpOK cfg m fs (commit cfg o m fs u n) := by
   unfold commit
   split
@@ -244,25 +243,25 @@ theorem commit_ok (cfg : Cfg) (o : Order Name) (m : Mem) (fs : FS Name) (u n : S
   · simp only
     split
     · -- the upload file is gone
-      exact fin_ok o m m fs [] u _ (fun g k => by simpa [applyPrefix] using g) (fun hs => hs) (Keeps.refl _)
+      exact fin_ok o m m fs [] u _ (fun g k => by simpa [applyPrefix] using g) (fun hs => hs)
     · rename_i c hc
       split
-      · exact fin_ok o m m fs [] u _ (fun g k => by simpa [applyPrefix] using g) (fun hs => hs) (Keeps.refl _)
+      · exact fin_ok o m m fs [] u _ (fun g k => by simpa [applyPrefix] using g) (fun hs => hs)
       · rename_i hd
-        have hd' : cfg.digest c = n := by simpa using hd
+        have hd' : cfg.digest c = n := by simpa [hv] using hd
         split
         · -- already in the file map
           rename_i hcached
           have hn := touch_calls cfg m fs n
           obtain ⟨t1, _⟩ := (fun hs => touch_sync cfg m fs n hs : Sync m fs → _)
             |> fun f => (⟨fun hs => (f hs).1, trivial⟩ : (Sync m fs → Sync (touch cfg m fs n).1 (applyAll fs (touch cfg m fs n).2)) ∧ True)
-          exact fin_ok o m _ fs _ u _ (fun g => neutral_prefix g _ hn) t1 (keeps_of_neutral _ hn fs)
+          exact fin_ok o m _ fs _ u _ (fun g => neutral_prefix g _ hn) t1
         · split
           · -- on disk: loaded
             obtain ⟨hn, hfs⟩ := loadCache_calls cfg m fs n
             have := fin_ok (cfg := cfg) o m (loadCache cfg m fs n).mem fs (loadCache cfg m fs n).calls u Res.exist
               (fun g => neutral_prefix g _ hn)
-              (fun hs => by rw [← hfs]; exact (loadCache_sync cfg m fs n hs).1) (keeps_of_neutral _ hn fs)
+              (fun hs => by rw [← hfs]; exact (loadCache_sync cfg m fs n hs).1)
             rw [← hfs] at this
             exact this
           · -- a new entry
@@ -342,17 +341,5 @@ theorem commit_ok (cfg : Cfg) (o : Order Name) (m : Mem) (fs : FS Name) (u n : S
                   unfold loadCache at hpresent
                   simp only [hcached, Bool.false_eq_true, if_false, this, if_true] at hpresent
                   exact hpresent trivial
-            · simp only [applyAll_append, applyAll_cons, applyAll_nil]
-              intro n' h
-              by_cases hnn : n' = n
-              · subst hnn
-                have hr := file?_apply_rename (applyAll fs A) (uploadDir u) (cacheDir n') Name.data Name.data (uploadDir_ne_cacheDir u n')
-                rw [hr.1]; split
-                · rw [hsrc]; rfl
-                · exact hkA _ h
-              · rw [file?_apply_of_not_written _ _ _ _ rfl (by
-                  simp only [Call.writes, List.mem_cons, List.not_mem_nil, or_false, Prod.mk.injEq, and_true, not_or]
-                  exact ⟨fun e => absurd e.symm (uploadDir_ne_cacheDir u n'), fun e => hnn (cacheDir_inj e)⟩)]
-                exact hkA _ h
 
 end KrakenModel.OriginCrash
